@@ -418,6 +418,7 @@ func genCheckIn(r *rec.Rand, valid bool) checkIn {
 			if len(c.tuples) > 0 && r.Chance(1, 4) {
 				// deliberately provoke ties: same object/relation/user, maybe another condition/context
 				t := rec.Pick(r, c.tuples).clone()
+				t.nilPtr = false
 				switch r.Intn(4) {
 				case 0:
 				case 1:
@@ -676,10 +677,7 @@ func mutateCheckIn(r *rec.Rand, a checkIn, valid bool) (checkIn, string) {
 			if b.tuples[i].hasCond {
 				t := b.tuples[i].clone()
 				t.ctx = genStruct(r, 1)
-				a2 := append([]atuple{}, b.tuples...)
-				a2 = append(a2, t)
 				b.tuples = append([]atuple{t}, b.tuples...)
-				_ = a2
 				return b, "tied_tuple_prepended"
 			}
 		}
@@ -748,16 +746,55 @@ func (c checkIn) run(r *rec.Rand, w *rec.Writer, valid bool) rec.V {
 	for i, t := range c.tuples {
 		ts[i] = t.rec(r)
 	}
+	perm := sortPerm(tks)
+	// diagnostic replica of the digest input (the real function only returns the digest; the
+	// oracle checks the real digest against xxhash64(model bytes) independently of this)
+	rb := keys.GetBuilder()
+	rb.EncodeString(c.store)
+	rb.EncodeString(c.model)
+	sorted := make(tuple.TupleKeys, len(tks))
+	copy(sorted, tks)
+	sort.Sort(sorted)
+	rb.EncodeArrayHeader(len(sorted))
+	for _, t := range sorted {
+		(*keys.Tuple)(t).WriteTo(rb.Builder)
+	}
+	(*keys.PbValue)(structpb.NewStructValue(ctx)).WriteTo(rb.Builder)
+	replica := append([]byte{}, rb.Bytes()...)
+	rb.Close()
 	return rec.L(rec.S(c.store), rec.S(c.model), rec.S(c.obj), rec.S(c.rel), rec.S(c.user),
-		rec.L(c.ctx.fieldsRec(r)...), rec.L(ts...), rec.U64(inv), rec.B(key.Bytes()), rec.I(via))
+		rec.L(c.ctx.fieldsRec(r)...), rec.L(ts...), rec.U64(inv), rec.B(key.Bytes()), rec.I(via), rec.LI(perm), rec.B(replica))
+}
+
+// sortPerm returns the order sort.Sort(tuple.TupleKeys) puts the tuples in, as indices into tks.
+// Distinct wrapper pointers make the order observable even among tied or nil entries.
+func sortPerm(tks []*openfgav1.TupleKey) []int {
+	cp := make(tuple.TupleKeys, len(tks))
+	pos := map[*openfgav1.TupleKey]int{}
+	for i, t := range tks {
+		if t == nil {
+			// a nil *TupleKey reads as the empty tuple through the getters; a distinct empty
+			// stand-in keeps its position observable
+			c := &openfgav1.TupleKey{}
+			cp[i] = c
+			pos[c] = i
+			continue
+		}
+		c := &openfgav1.TupleKey{Object: t.GetObject(), Relation: t.GetRelation(), User: t.GetUser(), Condition: t.GetCondition()}
+		cp[i] = c
+		pos[c] = i
+	}
+	sort.Sort(cp)
+	perm := make([]int, 0, len(cp))
+	for _, c := range cp {
+		perm = append(perm, pos[c])
+	}
+	return perm
 }
 
 func userTypeOf(u string) string {
 	if tuple.IsObjectRelation(u) {
 		return tuple.ToObjectRelationString(tuple.GetType(u), tuple.GetRelation(u))
-	}
-	if tuple.IsTypedWildcard(u) {
-		return u
 	}
 	return tuple.GetType(u)
 }
@@ -1369,6 +1406,7 @@ func runCase(w *rec.Writer, kind string, sub uint64, tier string) {
 		for i := 0; i < n; i++ {
 			if len(ts) > 0 && r.Chance(1, 3) {
 				t := rec.Pick(r, ts).clone()
+				t.nilPtr = false
 				switch r.Intn(4) {
 				case 0:
 					t.hasCond, t.name, t.ctx = true, rec.Pick(r, tConds), emptyStruct()
@@ -1398,16 +1436,7 @@ func runCase(w *rec.Writer, kind string, sub uint64, tier string) {
 				}
 			}
 		}
-		pos := map[*openfgav1.TupleKey][]int{}
-		for i, t := range tks {
-			pos[t] = append(pos[t], i)
-		}
-		sort.Sort(tks)
-		var perm []int
-		for _, t := range tks {
-			perm = append(perm, pos[t][0])
-			pos[t] = pos[t][1:]
-		}
+		perm := sortPerm(tks)
 		w.Case(d, rec.I(8), rec.L(in...), rec.LI(perm), rec.L(less...))
 		w.Stat("sort.cases", 1)
 		if n > 12 {
